@@ -390,7 +390,7 @@ func c07MarshalCase(a netip.Addr, names []string) string {
 }
 
 func genC07(rng *rand.Rand, tier string) (cases []string) {
-	n := 4000
+	n := 10000
 	if tier == "thorough" {
 		n = 250000
 	}
